@@ -201,7 +201,12 @@ def c10_units(valid):
     the last request of the attempt (Spec/ValveFaults.lean: Attempt.got; Run/ValveFaults.lean: valveGot)"""
     ch = [int(x) for x in valid.tags["CH"].split(",")]
     seg = valid.seg()
-    return [0, 1, 2] + [3 + k for k in range(3) if ch[k] >= 1] + [6 + k for k in range(3) if seg[k] - ch[k] >= 2]
+    # (replies of 2-4 fragments, and at most C10_BASE_CAP bases per unit: every silent attempt repeats the fragments, the
+    # scripts of the thorough tier's hundreds of thousands of vectors would not fit in memory otherwise)
+    return [0, 1, 2] + [3 + k for k in range(3) if ch[k] >= 1] + [6 + k for k in range(3) if 2 <= seg[k] - ch[k] <= 4]
+
+
+C10_BASE_CAP = {6: 10, 7: 10, 8: 10}
 
 
 def _got(unit, i, frags):
